@@ -36,6 +36,9 @@ CLAIMED['C05'] = dict(design='8/C05', technique='deductive verification: postcon
 CLAIMED['C20'] = dict(design='8/C20', technique='deductive verification: representation invariant and live-set view as contracts on every method, scan-loop invariant over a cyclic interval, variant, skolemised quantifiers over an SMT-array map model; z3/cvc5',
    text='Proof that every method of IDGenerator preserves the representation invariant, that every returned id is inside [minValue, maxValue], was not live and becomes live, that errors leave the live set unchanged, that plain Allocate fails only when all offsets are live, and that FreeID makes the id allocatable again; for all allocator ranges up to 2^62 and all states, histories by induction.',
    note='map[int64]bool as SMT array of presence bits; x % y with symbolic divisor replaced by a remainder lemma that is itself discharged (lemma.srem64); induction over histories on paper.')
+CLAIMED['C19'] = dict(design='8/C19', technique='deductive frame/provenance obligations on every library function over go/ssa (no store to, or escape of, package-level memory outside init; no goroutine/channel/sync/atomic/unsafe use); race freedom by a stated non-interference argument',
+   text='Proof of the property\'s premise: for each of ~2150 functions of the library packages three frame obligations (global-write, global-escape, sync) and one per package-level variable are discharged by a provenance analysis of the SSA of the current tree. The conclusion about all interleavings (no data race, sequential results) is reached only through the non-interference meta-argument listed under assumptions; interleavings are not explored.',
+   note='Schedules are not enumerated. Trusted: logrus entries are internally synchronised; standard-library/dependency callees keep no cross-call state; the meta-argument from frame conditions to race freedom is on paper.')
 REASONS = {}
 checks = []
 for p in props:
